@@ -4,7 +4,7 @@
 use crate::adapter::{Fr381, MvPoly, E381};
 use crate::common::*;
 use ark_ec::{pairing::Pairing, AffineRepr, CurveGroup};
-use ark_ff::{Field, One, Zero};
+use ark_ff::{Field, One, UniformRand, Zero};
 use ark_poly::{
     multivariate::{SparseTerm, Term},
     DenseMVPolynomial, Polynomial,
@@ -271,7 +271,20 @@ fn comb(v: &Value) -> Res {
     }
     match guarded_plain(|| ark_poly_commit::verif_api::pst13::combinations(original.clone(), deg)) {
         Out::Ok(got) if got == exp => ok(),
-        Out::Ok(got) => bad(format!("Combinations({}x{}, {}) yields {} multisets, specification {}", nv, d, deg, got.len(), exp.len())),
+        Out::Ok(got) => {
+            // the property: every multiset exactly once (none missing, none duplicated); the order in which a
+            // private iterator yields them, and the order inside a multiset, are implementation details
+            let norm = |l: &Vec<Vec<usize>>| {
+                let mut l: Vec<Vec<usize>> = l.iter().map(|m| { let mut m = m.clone(); m.sort(); m }).collect();
+                l.sort();
+                l
+            };
+            if norm(&got) == norm(&exp) {
+                Res { ok: true, class: "drift", why: format!("Combinations({}x{}, {}): same multisets, other order", nv, d, deg) }
+            } else {
+                bad(format!("Combinations({}x{}, {}) yields {} multisets, specification {} (or not the same ones)", nv, d, deg, got.len(), exp.len()))
+            }
+        }
         o => bad(format!("Combinations aborted: {}", o.detail())),
     }
 }
@@ -307,8 +320,26 @@ fn dap(v: &Value) -> Res {
             if ws.len() != 2 {
                 return bad(format!("{} quotients for 2 variables", ws.len()));
             }
+            // The property demands an EXACT decomposition  p(X) - p(z) = sum_i (X_i - z_i) w_i(X)  whose
+            // quotients stay within the key (degree < deg p); which exact decomposition the prover picks
+            // is an implementation detail (a different exact one is drift, not a violation).
+            let mut rng = rng_for("dap-identity", 0);
+            for _ in 0..4 {
+                let x: Vec<F> = (0..2).map(|_| F::rand(&mut rng)).collect();
+                let lhs = p.evaluate(&x) - p.evaluate(&z);
+                let rhs = (x[0] - z[0]) * ws[0].evaluate(&x) + (x[1] - z[1]) * ws[1].evaluate(&x);
+                if lhs != rhs {
+                    return bad(format!("quotient decomposition is not exact for p={:?} z={:?}", v["p"], v["z"]));
+                }
+            }
+            let dp = p.degree();
+            for w in ws.iter() {
+                if !w.is_zero() && w.degree() + 1 > dp.max(1) {
+                    return bad(format!("a quotient has degree {} for a dividend of degree {} (p={:?})", w.degree(), dp, v["p"]));
+                }
+            }
             if ws[0] != w1 || ws[1] != w2 {
-                return bad(format!("quotients differ from the specification's for p={:?} z={:?}", v["p"], v["z"]));
+                return Res { ok: true, class: "drift", why: format!("exact, but not the specification's quotients for p={:?} z={:?}", v["p"], v["z"]) };
             }
             ok()
         }
@@ -376,8 +407,26 @@ fn lincomb(v: &Value) -> Res {
             (fi(t[0]), if t[1] == 0 { LCTerm::One } else { LCTerm::PolyLabel(plabel(t[1])) })
         })
         .collect();
+    // The property is about MEANING: two combinations have the same value at every assignment of
+    // polynomial evaluations iff the coefficients of each term sum to the same scalar.  The order and
+    // grouping of the term list is an implementation detail (reported as drift, never as a violation).
+    let canon = |ts: &[(F, LCTerm)]| -> std::collections::BTreeMap<String, F> {
+        let mut m = std::collections::BTreeMap::new();
+        for (c, t) in ts {
+            let k = match t {
+                LCTerm::One => "1".to_string(),
+                LCTerm::PolyLabel(l) => l.clone(),
+            };
+            *m.entry(k).or_insert_with(F::zero) += *c;
+        }
+        m.retain(|_, c| !c.is_zero());
+        m
+    };
+    if canon(&lc.terms) != canon(&exp) {
+        return bad(format!("value of the combination differs after {:?}", v["hist"]));
+    }
     if lc.terms != exp {
-        return bad(format!("term list differs after {:?}", v["hist"]));
+        return Res { ok: true, class: "drift", why: format!("same value, different term list after {:?}", v["hist"]) };
     }
     ok()
 }
